@@ -51,9 +51,9 @@ AddlUnit(k0) ==
   IN [prop |-> "C02", fam |-> "addl", par |-> k0, schema |-> s, defs |-> <<>>,
       docs |-> SetToSeq(docsFor(<<KV("my_field", JNum(4)), KV("p", SA)>>)
                         \cup (IF WithReq(k0) THEN {} ELSE docsFor(<<>>))),
-      \* with another validator present an unmarshaler is generated and its additional-properties block
-      \* refers to raw / reflect / strings / mapstructure, none of which is declared or imported
-      nobuild |-> IF WithReq(k0) THEN <<"UntypedAddlNextToPropsNoCompile">> ELSE <<>>]
+      \* (with another validator present an unmarshaler is generated; before fix 43222c6 its additional-properties
+      \* block referred to raw / reflect / strings / mapstructure without declaring or importing them)
+      nobuild |-> <<>>]
 
 (* ---- fmt ---- *)
 FmtPars == Formats \X {"req", "opt", "item"}
